@@ -9,15 +9,19 @@
    Timer identities do not influence the algorithm; states are kept modulo
    renaming (IvTimerHeap!Canon), a registration takes the lowest free id.
 
-   The Next disjuncts are the same operations classified by what they will do
-   (tree growth / lazy allocation, level removal, sift direction, p == m).
-   The class is PREDICTED from the abstract heap (cheap guard) and the outcome
-   of the transcribed code must agree (assertion), so `-coverage 1` proves
-   that each of these paths was taken and each prediction is an independent
-   statement of what the operation has to do. *)
+   Every operation is classified by what it has to do (tree growth / lazy
+   allocation, level removal, sift direction, p == m).  The class is
+   PREDICTED from the abstract heap and the outcome of the transcribed code
+   must agree (assertion): an independent statement of what the operation has
+   to do.  With CovPrint = TRUE every transition prints "COV <op> <class>";
+   the driver (lib/check_c05heap.py) counts them and fails the check build if
+   one of the paths was never taken.  (`-coverage 1` cannot be used here:
+   TLC's cost model expands every call site of the nested operators of
+   IvTimerHeap and runs out of memory.) *)
 EXTENDS IvTimerHeap
 
-CONSTANTS MaxT, NExp, MaxLevel
+CONSTANTS MaxT, NExp, MaxLevel,
+          CovPrint     \* TRUE: print one COV line per transition (path accounting)
 VARIABLES h, reg
 vars == <<h, reg>>
 
@@ -39,25 +43,25 @@ RegPredict(a, e) ==
   << IF Grows(a, k) THEN "grow" ELSE IF ~Exists(a, Root(a), a.depth, k) THEN "alloc" ELSE "plain",
      IF k > 1 /\ a.ex[Slot(a, k \div 2)] > e THEN "up" ELSE "stay" >>
 
+Cov(op, c) == CovPrint => PrintT("COV " \o op \o " " \o c[1] \o " " \o c[2])
+
 RegOutcome(a, b, t) ==
   << IF b.depth > a.depth THEN "grow" ELSE IF b.alloc # a.alloc THEN "alloc" ELSE "plain",
      IF b.ix[t] < b.n THEN "up" ELSE "stay" >>
 
+(* (state-level operator: TLC caches the LET, the operation is computed once) *)
+RegChecked(a, t, e, c) ==
+  LET b == Register(a, t, e)
+  IN IF /\ Assert(RegOutcome(a, b, t) = c, <<"register did not do what the heap requires", c>>)
+        /\ Cov("Reg", c)
+     THEN Canon(b) ELSE a
+
 Reg(e, c) ==
   /\ Free # {}
-  /\ RegPredict(h, e) = c
-  /\ LET t == NextId
-         b == Register(h, t, e)
-     IN /\ Assert(RegOutcome(h, b, t) = c, <<"register did not do what the heap requires", c>>)
-        /\ h' = Canon(b)
-        /\ reg' = 1..(h.n + 1)
+  /\ h' = RegChecked(h, NextId, e, c)
+  /\ reg' = 1..(h.n + 1)
 
-RegGrowUp(e)    == Reg(e, <<"grow", "up">>)
-RegGrowStay(e)  == Reg(e, <<"grow", "stay">>)
-RegAllocUp(e)   == Reg(e, <<"alloc", "up">>)
-RegAllocStay(e) == Reg(e, <<"alloc", "stay">>)
-RegPlainUp(e)   == Reg(e, <<"plain", "up">>)
-RegPlainStay(e) == Reg(e, <<"plain", "stay">>)
+RegAny(e) == Reg(e, RegPredict(h, e))
 
 UnPredict(a, t) ==
   LET i    == a.ix[t]
@@ -78,22 +82,18 @@ UnOutcome(a, b, t) ==
         ELSE "stay",
         IF b.depth < a.depth THEN "level" ELSE "nolevel" >>
 
+UnregChecked(a, t, c) ==
+  LET b == Unregister(a, t)
+  IN IF /\ Assert(UnOutcome(a, b, t) = c, <<"unregister did not do what the heap requires", c>>)
+        /\ Cov("Unreg", c)
+     THEN Canon(b) ELSE a
+
 Unreg(t, c) ==
   /\ t \in reg
-  /\ UnPredict(h, t) = c
-  /\ LET b == Unregister(h, t)
-     IN /\ Assert(UnOutcome(h, b, t) = c, <<"unregister did not do what the heap requires", c>>)
-        /\ h' = Canon(b)
-        /\ reg' = 1..(h.n - 1)
+  /\ h' = UnregChecked(h, t, c)
+  /\ reg' = 1..(h.n - 1)
 
-UnLastLevel(t) == Unreg(t, <<"last", "level">>)
-UnLast(t)      == Unreg(t, <<"last", "nolevel">>)
-UnUpLevel(t)   == Unreg(t, <<"up", "level">>)
-UnUp(t)        == Unreg(t, <<"up", "nolevel">>)
-UnDownLevel(t) == Unreg(t, <<"down", "level">>)
-UnDown(t)      == Unreg(t, <<"down", "nolevel">>)
-UnStayLevel(t) == Unreg(t, <<"stay", "level">>)
-UnStay(t)      == Unreg(t, <<"stay", "nolevel">>)
+UnregAny(t) == t \in reg /\ Unreg(t, UnPredict(h, t))
 
 (* one iv_run_timers pass at time `now` whose handlers do nothing *)
 PopOK(a, r, now) ==
@@ -103,19 +103,22 @@ PopOK(a, r, now) ==
   /\ {r.q[k] : k \in 1..Len(r.q)} \cup Stored(r.h) = Stored(a)
   /\ Len(r.q) + r.h.n = a.n
 
-Fire(now) ==
-  LET r == RunTimers(h, now, <<>>)
+FireChecked(a, now) ==
+  LET r    == RunTimers(a, now, <<>>)
       gone == {r.q[k] : k \in 1..Len(r.q)}
-  IN /\ Len(r.q) > 0
-     /\ Assert(PopOK(h, r, now), <<"iv_run_timers pops out of order", r.q>>)
-     /\ h' = Canon([r.h EXCEPT !.ix = [t \in Timers |-> IF t \in gone THEN -1 ELSE r.h.ix[t]]])
-     /\ reg' = 1..r.h.n
+  IN IF Len(r.q) = 0 THEN a
+     ELSE IF Assert(PopOK(a, r, now), <<"iv_run_timers pops out of order", r.q>>) /\ Cov("Fire", <<"pop", "pop">>)
+     THEN Canon([r.h EXCEPT !.ix = [t \in Timers |-> IF t \in gone THEN -1 ELSE r.h.ix[t]]])
+     ELSE a
+
+Fire(now) ==
+  /\ h.n > 0 /\ h.ex[Slot(h, 1)] <= now
+  /\ h' = FireChecked(h, now)
+  /\ reg' = 1..h'.n
 
 Next ==
-  \/ \E e \in Exps : \/ RegGrowUp(e) \/ RegGrowStay(e) \/ RegAllocUp(e)
-                     \/ RegAllocStay(e) \/ RegPlainUp(e) \/ RegPlainStay(e)
-  \/ \E t \in TimerSet : \/ UnLastLevel(t) \/ UnLast(t) \/ UnUpLevel(t) \/ UnUp(t)
-                    \/ UnDownLevel(t) \/ UnDown(t) \/ UnStayLevel(t) \/ UnStay(t)
+  \/ \E e \in Exps : RegAny(e)
+  \/ \E t \in TimerSet : UnregAny(t)
   \/ \E now \in Exps : Fire(now)
 
 Spec == Init /\ [][Next]_vars
